@@ -10,6 +10,12 @@ let () =
     let line = input_line stdin in
     (match split line with
      | ["SETD"; n; s; v; p] -> print_string (hex (add_double (nat_of_int (int_of_string n)) (s = "s") (zhex v) (zhex p)))
+     | ["SETB"; n; s; v; p] -> print_string (hex (set_buf_double (nat_of_int (int_of_string n)) (s = "s") (zhex v) (zhex p)))
+     | ["RTU"; n; s; v; p; u] ->
+       let n' = nat_of_int (int_of_string n) in
+       let bytes = add_double_u n' (s = "s") (zhex v) (zhex p) (zhex u) in
+       let (r, _) = get_double n' (s = "s") (zhex p) (zhex u) Z0 (z_of_int (int_of_string n)) (pad223 bytes) in
+       Printf.printf "%s %s" (hex bytes) (dbits r)
      | ["RTD"; n; s; v; p] ->
        let n' = nat_of_int (int_of_string n) in
        let bytes = add_double n' (s = "s") (zhex v) (zhex p) in
